@@ -65,11 +65,27 @@ func fixReservedGo(w string) string {
 var (
 	isPackage = map[string]bool{
 		// stdlib and goa packages used by generated code
-		"fmt":  true,
-		"http": true,
-		"json": true,
-		"os":   true,
-		"url":  true,
-		"time": true,
+		"bytes":     true,
+		"context":   true,
+		"errors":    true,
+		"flag":      true,
+		"fmt":       true,
+		"goa":       true,
+		"goagrpc":   true,
+		"goahttp":   true,
+		"http":      true,
+		"io":        true,
+		"json":      true,
+		"log":       true,
+		"main":      true,
+		"net":       true,
+		"os":        true,
+		"strconv":   true,
+		"strings":   true,
+		"sync":      true,
+		"time":      true,
+		"url":       true,
+		"utf8":      true,
+		"websocket": true,
 	}
 )
